@@ -439,3 +439,89 @@ B("C16", "wrap-shift-factored", SAM,
                                           Segment(unit.segment.start + pivot - (bound_sup - bound_inf),
                                                   unit.segment.end - (bound_sup - bound_inf) + pivot),
                                           unit.annotation)""")
+
+# =============================================================================================
+# C04
+# =============================================================================================
+REGRESSIONS.append(dict(prop="C04", id="regression/F2-int8-category-index", patch="835af5a.diff", rule="R-C04-4"))
+REGRESSIONS.append(dict(prop="C04", id="regression/F3-ordinal-supplied-order", patch="91dc06a.diff", rule="R-C04-5"))
+REGRESSIONS.append(dict(prop="C04", id="regression/F4-combined-stale-delta", patch="71a25d3.diff", rule="R-C04-6"))
+M("C04", "d-without-square", DIS, "        return pos * pos * self.delta_empty", "        return pos * self.delta_empty", "R-C04-1")
+M("C04", "dmat-start-used-for-both-ends", DIS,
+  "            dist = ((np.abs(unit1[0] - unit2[0]) + np.abs(unit1[1] - unit2[1])) /",
+  "            dist = ((np.abs(unit1[0] - unit2[0]) + np.abs(unit1[0] - unit2[1])) /", "R-C04-1")
+M("C04", "alpha-beta-swapped-in-d", DIS,
+  """        return (self.alpha * self.positional_dissim.d(unit1, unit2)
+                + self.beta * self.categorical_dissim.d(unit1, unit2))""",
+  """        return (self.beta * self.positional_dissim.d(unit1, unit2)
+                + self.alpha * self.categorical_dissim.d(unit1, unit2))""", "R-C04-1")
+M("C04", "both-forms-wrong-denominator", DIS,
+  """                    (unit1[2] + unit2[2]))
+            return dist * dist * delta_empty
+        return d_mat
+
+    def d(self, unit1: 'Unit', unit2: 'Unit'):
+        pos = ((abs(unit1.segment.start - unit2.segment.start) + abs(unit1.segment.end - unit2.segment.end)) /
+               (unit1.segment.duration + unit2.segment.duration))""",
+  """                    (unit1[1] + unit2[1]))
+            return dist * dist * delta_empty
+        return d_mat
+
+    def d(self, unit1: 'Unit', unit2: 'Unit'):
+        pos = ((abs(unit1.segment.start - unit2.segment.start) + abs(unit1.segment.end - unit2.segment.end)) /
+               (unit1.segment.end + unit2.segment.end))""", "R-C04-2", "both forms agree but deviate from the documented formula")
+M("C04", "lambda-lower-triangle-only", DIS,
+  "                matrix[i, j] = dist_cat\n                matrix[j, i] = dist_cat", "                matrix[i, j] = dist_cat", "R-C04-3")
+M("C04", "int16-cast", DIS,
+  "matrix[np.int32(unit1[3]), np.int32(unit2[3])]", "matrix[np.int16(unit1[3]), np.int16(unit2[3])]", "R-C04-4")
+M("C04", "asymmetric-kernel", DIS,
+  "            return (0 if unit1[3] == unit2[3] else 1) * delta_empty",
+  "            return (0 if unit1[3] == unit2[3] else 1) * delta_empty + unit1[0] * 0.0001", "R-C04-1")
+M("C04", "alpha-stored-in-beta", DIS,
+  "        self.alpha = alpha\n        self.beta = beta", "        self.alpha = beta\n        self.beta = alpha", "R-C04-7")
+M("C04", "default-cat-without-delta", DIS,
+  "            cat_dissim = AbsoluteCategoricalDissimilarity(delta_empty)",
+  "            cat_dissim = AbsoluteCategoricalDissimilarity()", "R-C04-7")
+M("C04", "alpha-assigned-after-compile", DIS,
+  """        self.alpha = alpha
+        self.beta = beta
+
+        super().__init__(delta_empty=delta_empty, categories=cat_dissim.categories)""",
+  """        self.alpha = 1.0
+        self.beta = beta
+
+        super().__init__(delta_empty=delta_empty, categories=cat_dissim.categories)
+        self.alpha = alpha""", "R-C04-6", "kernel captured alpha=1.0, d() uses the requested alpha")
+M("C04", "layout-end-and-duration-swapped", DIS,
+  """                unit_array[unit_id][1] = unit.segment.end
+                unit_array[unit_id][2] = unit.segment.duration""",
+  """                unit_array[unit_id][1] = unit.segment.duration
+                unit_array[unit_id][2] = unit.segment.end""", "R-C04-0")
+M("C04", "ordinal-matrix-transposed-spaces", DIS,
+  "                matrix[rank_i, rank_j] = abs(p[i] - p[j])",
+  "                matrix[rank_i, j] = abs(p[i] - p[j])", "R-C04-5")
+M("C04", "levenshtein-drops-delta", DIS,
+  """    def __init__(self, labels: Iterable[str], delta_empty: float = 1.0):
+        super().__init__(labels, delta_empty)
+
+    @staticmethod
+    @nb.njit""",
+  """    def __init__(self, labels: Iterable[str], delta_empty: float = 1.0):
+        super().__init__(labels)
+
+    @staticmethod
+    @nb.njit""", "R-C04-7")
+B("C04", "square-as-power", DIS, "            return dist * dist * delta_empty", "            return dist ** 2 * delta_empty")
+B("C04", "abs-vs-npabs-and-operand-order", DIS,
+  "        pos = ((abs(unit1.segment.start - unit2.segment.start) + abs(unit1.segment.end - unit2.segment.end)) /",
+  "        pos = ((np.abs(unit2.segment.end - unit1.segment.end) + np.abs(unit2.segment.start - unit1.segment.start)) /")
+B("C04", "absolute-as-neq-indicator", DIS,
+  "            return (0 if unit1[3] == unit2[3] else 1) * delta_empty",
+  "            differs = 1 if unit2[3] != unit1[3] else 0\n            return delta_empty * differs")
+B("C04", "int64-cast", DIS,
+  "matrix[np.int32(unit1[3]), np.int32(unit2[3])]", "matrix[np.int64(unit1[3]), np.int64(unit2[3])]")
+B("C04", "combined-reordered-sum", DIS,
+  """            return (alpha * pos(unit1, unit2) +
+                    beta * cat(unit1, unit2))""",
+  """            c = cat(unit1, unit2)
+            return c * beta + pos(unit1, unit2) * alpha""")
